@@ -13,27 +13,25 @@
   What the code does: `do_work` ends one timestep before the finish it records
   (`yield timeout(duration - 1); self.aft = env.now + 1`); the allocation process
   (`allocate_task_to_cluster`) polls once per timestep and, when it sees the body
-  ended, enters the task in the cluster's finished map; `allocate_tasks` proposes a
-  successor as soon as `is_task_finished` holds for all predecessors.
+  ended AND `env.now >= task.aft` (the F13 repair), enters the task in the cluster's
+  finished map; `allocate_tasks` proposes a successor as soon as `is_task_finished`
+  holds for all predecessors.
 
-  `Reach` lets the blocks of one instant run in ANY order.  Under `Reach` the clause
-  "recorded finish of every predecessor ≤ recorded start of the task" is FALSE: if,
-  inside one instant, the predecessor's body ends, THEN its allocation process polls,
-  THEN `allocate_tasks` runs, the successor is allocated and started in that same
-  instant, one timestep before the finish its predecessor recorded
-  (`C03_precedence_statement_false`; run `precSchedAdv`, TopsimProofs/Preced1.lean).
+  -- F13: with the repair the clause "recorded finish of every predecessor ≤ recorded
+  start of the task" holds for EVERY order of the blocks inside an instant
+  (`C03_precedence_any_order`, plain `Reach`; `C03_precedence_statement_holds`): a task
+  is reported finished at a time `≥ aft`, and no live process is due earlier than the
+  block that runs.  Before the repair the clause was false under `Reach`
+  (run `precSchedAdv`, TopsimProofs/Preced1.lean: body ends, THEN its allocation process
+  polls, THEN `allocate_tasks` runs, all inside one instant: successor started at 2,
+  predecessor's recorded finish 3) and held only under the order condition
+  `pollAfterSched` (`ReachSchedFirst`, TopsimProofs/Preced14.lean), which SimPy's order
+  satisfies.  In the same adversarial order the successor now starts at 3 = the
+  recorded finish.
 
-  What is TRUE for every order (`C03_precedence_partial`): the predecessor is reported
-  finished by the cluster, its record is FINISHED and carries a finish stamp, and that
-  stamp is at most ONE timestep after the start of the task (the predecessor's body had
-  ended when the task started).
-
-  The exact clause holds (`C03_precedence`) in every run whose steps satisfy
-  `pollAfterSched` (`ReachSchedFirst`, TopsimProofs/Preced14.lean): the block in which
-  an allocation process of a task of observation `o` reports the task finished runs
-  after the block of `o`'s `allocate_tasks` process of that instant.  In SimPy the
-  allocation process is created by, and therefore resumed after, that `allocate_tasks`
-  process at every instant.
+  `C03_precedence_partial` (finish ≤ start + 1, any order) and `C03_precedence`
+  (exact, `ReachSchedFirst`) are kept; both are now consequences of
+  `C03_precedence_any_order`.
 -/
 import TopsimProofs.Preced20
 import TopsimProps.C03
@@ -43,9 +41,10 @@ namespace Sys
 
 /-! ### (1) precedence -/
 
-/-- (1), full strength for arbitrary block order (FALSE, see below): for every started task and
-every predecessor in the plan graph, the predecessor's record is FINISHED and its recorded finish
-is not later than the recorded start of the task. -/
+/-- (1), full strength for arbitrary block order (F13: TRUE, `C03_precedence_statement_holds`;
+false before the repair): for every started task and every predecessor in the plan graph, the
+predecessor's record is FINISHED and its recorded finish is not later than the recorded start of
+the task. -/
 def C03_precedence_statement : Prop :=
   ∀ (s0 s : Sys), WFConfig s0 → s0.alg ≠ .oracle →
     (s0.buf.hot.stored = [] ∧ s0.buf.hot.scheduled = [] ∧ s0.buf.hot.finished = [] ∧ s0.buf.cold.stored = []) →
@@ -78,6 +77,18 @@ theorem C03_precedence_partial (s0 s : Sys) (hw : WFConfig s0) (ha : s0.alg ≠ 
       ∃ rq f, s.task? q = some rq ∧ rq.status = .finished ∧ rq.aft = some f ∧ f ≤ a + 1 :=
   reach_precedence s0 s hw (hb0_bufList hb0) ha h hc
 
+/-- (1), exact, for EVERY order of the blocks inside an instant (`Reach`): the recorded finish of
+every predecessor in the plan graph is not later than the recorded start. -/
+-- F13: new; before the repair this held only under `ReachSchedFirst` (`C03_precedence` below)
+theorem C03_precedence_any_order (s0 s : Sys) (hw : WFConfig s0) (ha : s0.alg ≠ .oracle)
+    (hb0 : s0.buf.hot.stored = [] ∧ s0.buf.hot.scheduled = [] ∧ s0.buf.hot.finished = [] ∧
+      s0.buf.cold.stored = [])
+    (h : Reach s0 s) (hc : s.crashed = none) :
+    ∀ pl ∈ s.plans, ∀ q t, (q, t) ∈ pl.edges → ∀ r a, s.task? t = some r → r.ast = some a →
+      s.cl.isTaskFinished q = true ∧
+      ∃ rq f, s.task? q = some rq ∧ rq.status = .finished ∧ rq.aft = some f ∧ f ≤ a :=
+  reach_precedence_exact s0 s hw (hb0_bufList hb0) ha h hc
+
 /-- (1), exact, in the order of `ReachSchedFirst` (every step satisfies `pollAfterSched`): the
 recorded finish of every predecessor in the plan graph is not later than the recorded start. -/
 theorem C03_precedence (s0 s : Sys) (hw : WFConfig s0) (ha : s0.alg ≠ .oracle)
@@ -87,7 +98,13 @@ theorem C03_precedence (s0 s : Sys) (hw : WFConfig s0) (ha : s0.alg ≠ .oracle)
     ∀ pl ∈ s.plans, ∀ q t, (q, t) ∈ pl.edges → ∀ r a, s.task? t = some r → r.ast = some a →
       s.cl.isTaskFinished q = true ∧
       ∃ rq f, s.task? q = some rq ∧ rq.status = .finished ∧ rq.aft = some f ∧ f ≤ a :=
-  reach_precedence_exact s0 s hw (hb0_bufList hb0) ha h hc
+  C03_precedence_any_order s0 s hw ha hb0 h.toReach hc
+
+/-- (1): the clause as first written holds -/
+-- F13: replaces `C03_precedence_statement_false` (the clause was false before the repair)
+theorem C03_precedence_statement_holds : C03_precedence_statement := by
+  intro s0 s hw ha hb0 h hc pl hpl q t he r a hr hast
+  exact (C03_precedence_any_order s0 s hw ha hb0 h hc pl hpl q t he r a hr hast).2
 
 /-- the same two statements with the predecessors read off `Plan.preds` (what the algorithms test) -/
 theorem C03_precedence_partial_preds (s0 s : Sys) (hw : WFConfig s0) (ha : s0.alg ≠ .oracle)
@@ -100,6 +117,17 @@ theorem C03_precedence_partial_preds (s0 s : Sys) (hw : WFConfig s0) (ha : s0.al
   fun pl hpl t r a hr hast q hq =>
     C03_precedence_partial s0 s hw ha hb0 h hc pl hpl q t (planPreds_mem hq) r a hr hast
 
+-- F13: new, any order
+theorem C03_precedence_preds_any_order (s0 s : Sys) (hw : WFConfig s0) (ha : s0.alg ≠ .oracle)
+    (hb0 : s0.buf.hot.stored = [] ∧ s0.buf.hot.scheduled = [] ∧ s0.buf.hot.finished = [] ∧
+      s0.buf.cold.stored = [])
+    (h : Reach s0 s) (hc : s.crashed = none) :
+    ∀ pl ∈ s.plans, ∀ t r a, s.task? t = some r → r.ast = some a → ∀ q ∈ pl.preds t,
+      s.cl.isTaskFinished q = true ∧
+      ∃ rq f, s.task? q = some rq ∧ rq.status = .finished ∧ rq.aft = some f ∧ f ≤ a :=
+  fun pl hpl t r a hr hast q hq =>
+    C03_precedence_any_order s0 s hw ha hb0 h hc pl hpl q t (planPreds_mem hq) r a hr hast
+
 theorem C03_precedence_preds (s0 s : Sys) (hw : WFConfig s0) (ha : s0.alg ≠ .oracle)
     (hb0 : s0.buf.hot.stored = [] ∧ s0.buf.hot.scheduled = [] ∧ s0.buf.hot.finished = [] ∧
       s0.buf.cold.stored = [])
@@ -110,44 +138,6 @@ theorem C03_precedence_preds (s0 s : Sys) (hw : WFConfig s0) (ha : s0.alg ≠ .o
   fun pl hpl t r a hr hast q hq =>
     C03_precedence s0 s hw ha hb0 h hc pl hpl q t (planPreds_mem hq) r a hr hast
 
-/-- (1) is false for arbitrary block order: the run `precSchedAdv` of `precW0` (one machine, one
-observation whose workflow is the chain `precA → precB`, the queue algorithm, no delay) reaches a
-state in which `precB` has started at t = 2 and `precA` has the recorded finish t = 3. -/
-theorem C03_precedence_statement_false : ¬ C03_precedence_statement := by
-  intro hst
-  obtain ⟨hcr, hpl, hB, hA, _, _⟩ := precSchedAdv_final
-  generalize hs : precRun precSchedAdv precW0.start = s at hcr hpl hB hA
-  have hr : Reach precW0 s := hs ▸ precSchedAdv_reach
-  -- the plan with the edge
-  obtain ⟨pl, hplm, hed⟩ : ∃ pl ∈ s.plans, (precA, precB) ∈ pl.edges := by
-    cases hp : s.plans with
-    | nil => rw [hp] at hpl; simp at hpl
-    | cons pl rest =>
-      rw [hp] at hpl
-      simp only [List.map_cons, List.cons.injEq] at hpl
-      exact ⟨pl, by simp, by rw [hpl.1]; simp⟩
-  -- the two records
-  obtain ⟨rB, hrB, hastB⟩ : ∃ r, s.task? precB = some r ∧ r.ast = some 2 := by
-    cases ht : s.task? precB with
-    | none => rw [ht] at hB; simp at hB
-    | some r =>
-      rw [ht] at hB
-      simp only [Option.map_some, Option.some.injEq, Prod.mk.injEq] at hB
-      exact ⟨r, rfl, hB.2.1⟩
-  obtain ⟨rq, f, hrq, _, hf, hle⟩ := hst precW0 s precW0_wf (by simp [precW0]) precW0_buf hr hcr pl hplm
-    precA precB hed rB 2 hrB hastB
-  cases ht : s.task? precA with
-  | none => rw [ht] at hA; simp at hA
-  | some r =>
-    rw [ht] at hA hrq
-    simp only [Option.map_some, Option.some.injEq, Prod.mk.injEq] at hA
-    injection hrq with e
-    subst e
-    rw [hA.2.2] at hf
-    injection hf with e
-    subst e
-    exact absurd hle (by decide)
-
 /-- non-vacuity of (1): a state reachable in the restricted order (creation order inside every
 instant) with a started task that has a finished predecessor: recorded finish 3, start 4 -/
 example : ∃ s, ReachSchedFirst precW0 s ∧ s.crashed = none ∧
@@ -157,11 +147,13 @@ example : ∃ s, ReachSchedFirst precW0 s ∧ s.crashed = none ∧
   ⟨_, precSchedPid_reachSF, precSchedPid_final.1, precSchedPid_final.2.1, precSchedPid_final.2.2.1,
     precSchedPid_final.2.2.2.1⟩
 
-/-- … and the state of the refutation: the bound `f ≤ a + 1` of the partial statement is met
-with equality (finish 3, start 2); that run leaves the restricted order at its 28th block -/
+/-- … and the adversarial order (inside instant 2 the body of `precA` ends, THEN its allocation
+process polls, THEN `allocate_tasks` runs): the bound `f ≤ a` is met with equality (finish 3,
+start 3); that run leaves the restricted order at its 28th block -/
+-- F13: before the repair this run reached finish 3, start 2 (the refutation of the exact clause)
 example : (∃ s, Reach precW0 s ∧ s.crashed = none ∧
     (s.plans.map (·.edges)) = [[(precA, precB)]] ∧
-    (s.task? precB).map (fun r => (r.status, r.ast, r.preds)) = some (.running, some 2, [precA]) ∧
+    (s.task? precB).map (fun r => (r.status, r.ast, r.preds)) = some (.running, some 3, [precA]) ∧
     (s.task? precA).map (fun r => (r.status, r.ast, r.aft)) = some (.finished, some 1, some 3)) ∧
     precSchedFirstAll precSchedAdv precW0.start = false :=
   ⟨⟨_, precSchedAdv_reach, precSchedAdv_final.1, precSchedAdv_final.2.1, precSchedAdv_final.2.2.1,
